@@ -1336,7 +1336,7 @@ class TT():
         elif isinstance(index, slice):
             # tensor is 1d and one slice is extracted
             if len(self.__N) == 1:
-                sliced = TT(self.cores[0][:, index, :])
+                sliced = TT([self.cores[0][:, index, :]])
             else:
                 raise InvalidArguments('Invalid slice. Tensor is not 1d.')
             # TODO
